@@ -302,6 +302,17 @@ func valueTarget(ft *Term) (g *ssa.Function, via *Term, recv *Term) {
 	switch ft.Op {
 	case "func":
 		f, _ := ft.Val.(*ssa.Function)
+		if f != nil && strings.HasPrefix(f.Synthetic, "thunk") && len(f.Blocks) == 1 {
+			// a method expression (T.m): the thunk passes its parameters on to the method, receiver first
+			for _, in := range f.Blocks[0].Instrs {
+				if c, ok := in.(*ssa.Call); ok {
+					if m := c.Call.StaticCallee(); m != nil && len(m.Params) == len(f.Params) {
+						f = m
+					}
+					break
+				}
+			}
+		}
 		if f != nil && len(f.Blocks) > 0 && Inlineable(f) {
 			return f, ft, nil
 		}
